@@ -36,6 +36,8 @@ FEATS = {"Discretizer": (["q1", "q2"], ["c1"], ["o1"]),
          "ContinuousCarver": (["q1"], ["c1"], ["o1"]),
          "MulticlassCarver": (["q1"], ["c1"], ["o1"])}
 ORDER = ["L0", "L1", "L2", "L3", "L4"]
+# classes that convert a non-string qualitative column with StringDiscretizer before checking the ranking
+ORDNUM_CLASSES = ["Discretizer", "QualitativeDiscretizer", "BinaryCarver", "ContinuousCarver", "MulticlassCarver"]
 CATS = ["a", "b", "c", "d"]
 
 
@@ -68,8 +70,22 @@ def all_triples(cls):
             res.append((ep, "missing_col", "drop" + s))
         if has_quant(cls):
             res.append((ep, "quant_str", "cell"))
+            if ep != "transform":
+                # the str cell sits in a row where ANOTHER quantitative feature is missing
+                res.append((ep, "quant_str", "cell_nan_row"))
         if has_ordinal(cls):
             res.append((ep, "ordinal_unknown", "cell"))
+        if cls in ORDNUM_CLASSES:
+            # ordinal feature holding numbers; ranking given as strings or as the raw numbers
+            for rank in ("strrank", "numrank"):
+                for absent in ("absent_int", "absent_float", "absent_str"):
+                    res.append((ep, "ordinal_unknown", f"{absent}:{rank}"))
+    if has_quant(cls):
+        res.append(("fit", "none", "nan_in_quant"))
+    if cls in ORDNUM_CLASSES:
+        for rank in ("strrank", "numrank"):
+            res.append(("fit", "none", f"ordnum:{rank}"))
+            res.append(("transform", "none", f"ordnum:{rank}"))
     res.append(("fit", "x_not_frame", "none"))
     res.append(("fit", "index_mismatch", "shorter"))
     if carver:
@@ -92,7 +108,26 @@ def all_triples(cls):
         res.append(("init", "none", "-"))
         res.append(("init", "sort_by", "garbage"))
         res.append(("init", "sort_by", "tschuprowt" if cls == "ContinuousCarver" else "kruskal"))
+        # substrings / prefixes / suffixes / case variants / padded forms of the supported names
+        for v in sort_by_variants(cls):
+            res.append(("init", "sort_by", "v=" + v))
     return res
+
+
+def sort_by_variants(cls):
+    valid = ["kruskal"] if cls == "ContinuousCarver" else ["tschuprowt", "cramerv"]
+    other = ["tschuprowt", "cramerv"] if cls == "ContinuousCarver" else ["kruskal"]
+    vs = ["", "<None>"]
+    for name in valid:
+        k = len(name)
+        vs += [name[:1], name[:k // 2], name[:-1], name[1:], name[-2:], name[k // 3:-1],
+               name.capitalize(), name.upper(), name + " ", " " + name, name + "_measure"]
+    vs += [o[:-1] for o in other]
+    out = []
+    for v in vs:
+        if v not in out and v not in valid:
+            out.append(v)
+    return out
 
 
 # ---------------------------------------------------------------------------------------------
@@ -151,6 +186,12 @@ def gen_feats(rng, cls, mal):
     return {"q": q if "q" in keep else [], "c": c if "c" in keep else [], "o": o if "o" in keep else []}
 
 
+def ord_num_of(var):
+    """'strrank' / 'numrank' when the case uses a numeric-valued ordinal feature, else None"""
+    v = var.split("@")[0]
+    return v.split(":")[1] if ":" in v and v.split(":")[1] in ("strrank", "numrank") else None
+
+
 def gen_case(rng, cls, ep, mal, var):
     target = {"ContinuousCarver": "continuous", "MulticlassCarver": "multiclass"}.get(cls, "binary")
     classes = rng.choice([["a", "b", "c"], [0, 1, 2], [1, 2, 3, 4], ["u", "v", "w"]]) if target == "multiclass" else None
@@ -167,6 +208,13 @@ def gen_case(rng, cls, ep, mal, var):
             "sort_by": rng.choice(["tschuprowt", "cramerv"]),
             "pos": rng.random(), "pos2": rng.random(), "classes": None if classes is None else encs(classes)}
     case["perturb"] = rng.choice(PERTURBS) if ep == "refit" else "plain"
+    case["ord_num"] = ord_num_of(var)
+    case["ord_nan"] = rng.random() < 0.5
+    if case["ord_num"]:
+        case["feats"]["o"] = ["o1"]
+        case["perturb"] = "plain"
+    if var in ("cell_nan_row", "nan_in_quant"):
+        case["feats"]["q"] = ["q1", "q2"]
     dev_side = var.endswith("@dev")
     if cls in CARVERS and (dev_side or rng.random() < 0.4):
         case["dev"] = gen_sample(rng, rng.choice([40, 60]), target, classes)
@@ -190,7 +238,17 @@ def frame(sample, case, start=0):
     # an extra untouched column: the objects must not need it
     d = {c: decs(sample[c]) for c in cols}
     d["other"] = list(range(n))
+    if case.get("ord_num") and "o1" in d:
+        # the ordinal feature holds numbers 1..5 (floats when it also holds NaN)
+        d["o1"] = [ORDER.index(v) + 1 for v in d["o1"]]
+        if case.get("ord_nan"):
+            for j in range(7, n - 7, 9):
+                d["o1"][j] = NAN
     X = pd.DataFrame(d, index=range(start, start + n))
+    if case["var"] == "nan_in_quant":
+        for k, c in enumerate(qf):
+            for j in range(6 + k, n - 6, 7 + 3 * k):
+                X.iloc[j, list(X.columns).index(c)] = NAN
     return X
 
 
@@ -200,7 +258,10 @@ def target(sample, start=0):
     return pd.Series(y, index=range(start, start + len(y)))
 
 
-def construct(case, overlap=None, sort_by=None):
+DEFAULT = object()
+
+
+def construct(case, overlap=None, sort_by=DEFAULT):
     import AutoCarver.discretizers as D
     import AutoCarver as A
     cls = case["cls"]
@@ -210,6 +271,10 @@ def construct(case, overlap=None, sort_by=None):
     elif overlap == "quant_ordinal":
         of = of + [qf[0]]
     vo = {f: list(ORDER) for f in of if f == "o1"}
+    if case.get("ord_num") == "strrank":
+        vo = {f: ["1", "2", "3", "4", "5"] for f in vo}
+    elif case.get("ord_num") == "numrank":
+        vo = {f: [1, 2, 3, 4, 5] for f in vo}
     if overlap == "quant_ordinal":
         vo[qf[0]] = [0.0, 5.0, 10.0]
     mf, cp = case["min_freq"], case["copy"]
@@ -231,10 +296,10 @@ def construct(case, overlap=None, sort_by=None):
               values_orders=vo, max_n_mod=case["max_n_mod"], output_dtype=case["output_dtype"],
               dropna=case["dropna"], copy=cp, verbose=False)
     if cls == "BinaryCarver":
-        return A.BinaryCarver(sort_by=sort_by or case["sort_by"], **kw)
+        return A.BinaryCarver(sort_by=case["sort_by"] if sort_by is DEFAULT else sort_by, **kw)
     if cls == "MulticlassCarver":
-        return A.MulticlassCarver(sort_by=sort_by or case["sort_by"], **kw)
-    if sort_by is not None:
+        return A.MulticlassCarver(sort_by=case["sort_by"] if sort_by is DEFAULT else sort_by, **kw)
+    if sort_by is not DEFAULT:
         return A.ContinuousCarver(sort_by=sort_by, **kw)
     return A.ContinuousCarver(**kw)
 
@@ -305,14 +370,27 @@ def inject(case, obj, X, y, fitted):
         if not cols:
             return X, y, "no quantitative column left"
         col = cols[min(len(cols) - 1, int(case["pos2"] * len(cols)))]
+        if var == "cell_nan_row":
+            others = [c for c in feats_of(case)[0] if c != col and c in X.columns]
+            if not others:
+                return X, y, "a single quantitative column"
+            # NaN in every OTHER quantitative column on the row of the str cell and on a few more
+            for o in others:
+                X[o] = X[o].astype(float)
+                for j in {pos, (pos + 3) % n, (pos + 11) % n}:
+                    X.iloc[j, list(X.columns).index(o)] = NAN
         X[col] = X[col].astype(object)
-        X.iloc[pos, list(X.columns).index(col)] = "oops"
+        X.iloc[pos, list(X.columns).index(col)] = "12.5" if var == "cell_nan_row" else "oops"
         return X, y, None
     if mal == "ordinal_unknown":
         cols = [c for c in feats_of(case)[2] if (not fitted) or (c in required_columns(obj) and raw_is(obj, c, "quali"))]
         if not cols:
             return X, y, "no ordinal column left"
-        X.iloc[pos, list(X.columns).index(cols[0])] = "L9"
+        absent = var.split(":")[0]
+        if case.get("ord_num"):
+            X[cols[0]] = X[cols[0]].astype(object)
+        X.iloc[pos, list(X.columns).index(cols[0])] = {"absent_int": 9, "absent_float": 4.5,
+                                                        "absent_str": "d"}.get(absent, "L9")
         return X, y, None
     if mal == "n_classes":
         vals = list(y)
@@ -438,6 +516,14 @@ def call(fn):
         return "other", f"{type(e).__name__}: {e}"[:200]
 
 
+def sort_by_value(v):
+    if v == "garbage":
+        return "foo"
+    if v.startswith("v="):
+        return None if v == "v=<None>" else v[2:]
+    return v
+
+
 def run_case(case):
     cls, ep, mal, var = case["cls"], case["ep"], case["mal"], case["var"]
     dev_side = var.endswith("@dev")
@@ -448,7 +534,7 @@ def run_case(case):
         if mal == "feature_overlap":
             out["outcome"], out["error"] = call(lambda: construct(case, overlap=v))
         elif mal == "sort_by":
-            out["outcome"], out["error"] = call(lambda: construct(case, sort_by="foo" if v == "garbage" else v))
+            out["outcome"], out["error"] = call(lambda: construct(case, sort_by=sort_by_value(v)))
         else:
             out["outcome"], out["error"] = call(lambda: construct(case))
         out["fitted_before"] = False
@@ -540,7 +626,10 @@ class C19(Prop):
             "(class, entry point, malformed class, variant) triple is generated at least once per run "
             "(quick: once + the second fit of every class with each of 7 second samples — like the first, NaN "
             "where the first had none, id-like features, new / vanished / numeric-looking categories, other "
-            "numeric range —, thorough: 12x); observable: exception class, and for objects "
+            "numeric range —, thorough: 12x); quant_str also as a str cell on a row where another quantitative "
+            "feature is NaN; unsupported sort_by drawn from substrings/prefixes/suffixes/case variants/padded forms of "
+            "each carver's supported names, '' and None; ordinal features holding numbers (ranking as strings or as "
+            "numbers, NaN or not) with an absent int / float / str value, and the all-in-ranking controls; observable: exception class, and for objects "
             "fitted before the call features / values_orders / labels_per_values / json.dumps(to_json()) / transform(X_valid) against the "
             "snapshot taken before the call; compared in Coq with run_call of the CURRENT step list of the class; "
             "non-trivial = malformed case whose call was reached (first fit succeeded); distinct = "
@@ -551,11 +640,12 @@ class C19(Prop):
                    "state equality observed through values_orders, to_json() and transform on one valid frame"]
 
     def corpus(self):
-        """minimised failing cases kept from earlier runs (corpus/findings/C19-*.json), run first"""
+        """minimised failing cases kept from earlier runs (corpus/findings/O38_*.json, C19-*.json), run first"""
         import glob
         import os
         cs = []
-        for fn in sorted(glob.glob(os.path.join(C.VERIF, "corpus", "findings", "C19-*.json"))):
+        d = os.path.join(C.VERIF, "corpus", "findings")
+        for fn in sorted(glob.glob(os.path.join(d, "O38_*.json"))) + sorted(glob.glob(os.path.join(d, "C19-*.json"))):
             try:
                 cs.append(json.load(open(fn))["case"])
             except (OSError, ValueError, KeyError):
@@ -728,6 +818,12 @@ class C19(Prop):
             elif mal == "ordinal_unknown" and cls == "OrdinalDiscretizer" and ep == "fit" and res == "ok":
                 sigs.append("ordinal_unknown_accepted:OrdinalDiscretizer")
             # repaired mechanisms (a regression shows up under these names)
+            elif mal == "ordinal_unknown" and var.startswith("absent_") and res == "ok":
+                sigs.append("ordinal_absent_value_accepted_for_non_string_ordinal")
+            elif mal == "quant_str" and var == "cell_nan_row" and ep in ("fit", "refit"):
+                sigs.append("quant_str_in_row_with_nan_not_asserted")
+            elif mal == "sort_by" and res == "ok":
+                sigs.append("unsupported_sort_by_accepted")
             elif mal == "quant_str" and cls == "ContinuousDiscretizer" and ep in ("fit", "refit"):
                 sigs.append("quant_str_at_fit_not_asserted:ContinuousDiscretizer")
             elif cls == "ContinuousDiscretizer" and ep in ("fit", "refit"):
